@@ -163,6 +163,13 @@ def weighted(prog: Program, rep: Report):
         repl = kws.get("replacement", t[2][2] if len(t[2]) > 2 else ("const", False))
         num = kws.get("num_samples", t[2][1] if len(t[2]) > 1 else None)
         w = kws.get("input", t[2][0] if t[2] else None)
+        gen = kws.get("generator")
+        fresh = gen is not None and torch_generator_seed(gen) is not None
+        rep.decide(fresh, "G9.weighted-no-repeat", fi, "fresh-generator",
+                   "the epoch's generator is constructed (and seeded) inside __iter__",
+                   f"the draw uses {show(gen) if gen else 'the global RNG'} instead of a generator built in this iteration: "
+                   f"ranks that iterated a different number of times draw different global orders, so the union of their "
+                   f"slices repeats indices within an epoch", line=c.lineno, clause="C13.3")
         ok = repl == ("const", False) and num == ("self", "effective_length") and w == ("self", "weights")
         rep.decide(ok, "G9.weighted-no-repeat", fi, "multinomial",
                    "multinomial(self.weights, self.effective_length, replacement=False)",
